@@ -505,7 +505,7 @@ func (p *parser) BasicParser(urlOrRef string, baseUrl *Url, url *Url, stateOverr
 				if base != nil && base.scheme == "file" {
 					url.host = base.host
 					url.isIPv4, url.isIPv6 = base.isIPv4, base.isIPv6
-					if !startsWithAWindowsDriveLetter(input.remainingFromPointer()) && base.path != nil && isNormalizedWindowsDriveLetter(base.path.p[0]) {
+					if !startsWithAWindowsDriveLetter(input.remainingFromPointer()) && base.path != nil && len(base.path.p) > 0 && isNormalizedWindowsDriveLetter(base.path.p[0]) {
 						// This is a (platform-independent) Windows drive letter quirk. Both url’s and base’s host are null under these conditions and therefore not copied
 						url.path.addSegment(base.path.p[0])
 					}
